@@ -284,6 +284,12 @@ def listcomp(ex, p, e):
         if isinstance(it, Raised):
             yield q, it
             continue
+        hook = ex.ctx.opts.get('listcomp_hook')
+        if hook is not None:
+            r = hook(ex, q, e, it)          # contract-supplied abstract value for a comprehension (e.g. over a symbolic range)
+            if r is not None:
+                yield q, r
+                continue
         if hasattr(it, 'listcomp'):
             yield from it.listcomp(ex, q, e)
             continue
